@@ -142,8 +142,8 @@ def gen_cases(run):
         keep = ex[:15 + 225] + rng.sample(ex[15 + 225:], 700)
         run.cov["exhaustive"] = "all sequences of <=2 registrations over 4 PUs; 700 sampled of the 3375 of length 3"
     else:
-        keep = ex
-        run.cov["exhaustive"] = "all 3615 sequences of <=3 registrations over the 15 non-empty subsets of 4 PUs; all 3375 (a,b,restrict) triples"
+        keep = ex + list(G.exhaustive_cases(4, 4, minregs=4, probes=4))
+        run.cov["exhaustive"] = "all 54240 sequences of <=4 registrations over the 15 non-empty subsets of 4 PUs; all 3375 (a,b,restrict) triples"
     cases += [("exhaustive", c) for c in keep]
     rs = list(G.restrict_cases(4))
     cases += [("restrict", c) for c in (rs if thorough else rng.sample(rs, 400))]
@@ -151,6 +151,8 @@ def gen_cases(run):
     for i in range(nrand):
         cases.append(("random", G.random_case(rng, "rnd%d" % i, nbpus=rng.choice([16, 16, 16, 5, 70]),
                                               maxops=rng.choice([8, 12, 12, 25]))))
+    for i in range(1500 if thorough else 250):
+        cases.append(("info-ranking", G.info_rank_case(rng, "ir%d" % i, nbpus=rng.choice([4, 8, 12]))))
     for i in range(400 if thorough else 80):
         cases.append(("malformed", G.malformed_case(rng, "bad%d" % i)))
     # a dedicated stream that registers right after a restrict (where the model predicts the stale-slot error)
@@ -210,7 +212,8 @@ def check(run, replay=None):
     # 3. compare + evaluate the specification on the implementation's transcripts
     drift = 0
     reported = 0
-    hyp = {"forced_known_distinct": 0, "restrict_removed_kind": 0, "einval": 0, "exdev": 0, "enoent": 0, "found": 0}
+    more = []
+    hyp = {"forced_known_distinct": 0, "restrict_removed_kind": 0, "ranked": 0, "all_unknown": 0, "einval": 0, "exdev": 0, "enoent": 0, "found": 0}
     for c in batch:
         n = c[0].split()[1]
         kind = names[n][0]
@@ -222,7 +225,7 @@ def check(run, replay=None):
         hyp["exdev"] += txt.count("err=EXDEV")
         hyp["enoent"] += txt.count("err=ENOENT")
         hyp["found"] += len(re.findall(r"getby rc=\d+ err=OK", txt))
-        bad = G.spec_check(c, ci)
+        bad = G.spec_check(c, ci, hyp)
         pc, pm = G.public_view(ci), G.public_view(mi)
         nontrivial = any(l.startswith("k 1 ") for l in ci)
         run.count(txt, nontrivial, {"case": c[:5], "impl": ci[:8]}, kind)
@@ -231,7 +234,7 @@ def check(run, replay=None):
                 _report(ctx, c)
                 reported += 1
             else:
-                run.violation("more:" + n, "further failing case " + n, _replay_text("input", c, ci, mi), no_input=not bad)
+                more.append(n)
         else:
             run.cov["traces_validated_against_impl"] += 1
             if ci != mi:
@@ -245,6 +248,7 @@ def check(run, replay=None):
         nst += 1
     run.cov["model_predicted_stale_cases"] = len(stale)
     run.cov["drift"] = drift
+    run.cov["further_failing_cases"] = {"count": len(more), "first": more[:20]}
     run.cov["hypothesis_frequencies"] = hyp
     run.cov["harness_crashes"] = crashes
     return run.finish(proof, trusted=_trusted())
